@@ -199,6 +199,10 @@ pub struct St {
     pub cur_epoch: usize,
     pub retired: HashMap<usize, usize>,
     pub live_tokens: isize,
+    /// live tokens with the epoch they carry (block address = address of the token's epoch cell)
+    pub tokens: HashMap<usize, usize>,
+    /// tokens of handles that are inside their drop / unsubscribe call
+    pub leaving: HashSet<usize>,
 }
 
 pub struct Rt {
@@ -251,6 +255,8 @@ impl St {
             cur_epoch: 0,
             retired: HashMap::new(),
             live_tokens: 0,
+            tokens: HashMap::new(),
+            leaving: HashSet::new(),
         }
     }
 
@@ -604,6 +610,9 @@ impl Rt {
         if kind == K::Shim(OpKind::Store) && addr != 0 && addr == st.mm_epoch_addr {
             st.cur_epoch = val;
         }
+        if kind == K::Shim(OpKind::Store) && st.tokens.contains_key(&addr) {
+            st.tokens.insert(addr, val);
+        }
         if st.is_transparent(kind, addr, arg) {
             return;
         }
@@ -756,12 +765,16 @@ impl vh::Runtime for Rt {
         st.retired.insert(addr, e);
         if st.allocs.get(&addr).map(|a| a.2.contains("MemToken")).unwrap_or(false) {
             st.live_tokens -= 1;
+            st.tokens.remove(&addr);
+            st.leaving.remove(&addr);
         }
     }
     fn on_alloc(&self, addr: usize, bytes: usize, ty: &'static str) {
         let mut st = self.lock();
         if ty.contains("MemToken") {
             st.live_tokens += 1;
+            let e = st.cur_epoch;
+            st.tokens.insert(addr, e);
         }
         st.alloc_seq += 1;
         let seq = st.alloc_seq;
@@ -776,6 +789,15 @@ impl vh::Runtime for Rt {
             if e >= st.cur_epoch && st.live_tokens > 0 && st.active && !st.abort {
                 let (ce, lt) = (st.cur_epoch, st.live_tokens);
                 st.api.push(json!({"e":"earlyfree","blk":(addr & 0x3fff_ffff),"retired_at":e,"epoch":ce,"tokens":lt}));
+            } else if st.live_tokens > 0 && st.active && !st.abort {
+                // ... and only when every live token (handles that are just leaving excepted) carries that epoch
+                let ce = st.cur_epoch;
+                let stale = st.tokens.iter().filter(|(a, v)| **v != ce && !st.leaving.contains(*a)).count();
+                if stale > 0 {
+                    let lt = st.live_tokens;
+                    st.api.push(json!({"e":"earlyfree","blk":(addr & 0x3fff_ffff),"retired_at":e,"epoch":ce,
+                                       "tokens":lt,"stale_tokens":stale}));
+                }
             }
         }
         if known.is_none() && st.active && !st.abort {
